@@ -49,6 +49,22 @@ type FieldSpec struct {
 	Getter bool `json:"getter,omitempty"`
 	// AnyOf: the statement leaves a choice; every listed alternative is accepted
 	Free bool `json:"free,omitempty"`
+	// Via: an argument-less method of the source struct (logged as a custom call named "Type.Method") whose result
+	// is the source value of this field; Fn, when set, is applied to that result (map GETTER Target | FUNC)
+	Via string `json:"via,omitempty"`
+}
+
+// viaCall finds the logged getter call on src.
+func (o *Oracle) viaCall(name string, src engine.Value) *CallEntry {
+	if o.Calls == nil {
+		return nil
+	}
+	for _, c := range o.Calls.Calls {
+		if c.Name == name && len(c.SourceArgs) > 0 && o.Identical(c.SourceArgs[0], src).IsTrue() {
+			return c
+		}
+	}
+	return nil
 }
 
 type EnumSpec struct {
@@ -84,7 +100,7 @@ func typeKey(t types.Type) string {
 	return types.TypeString(t, func(p *types.Package) string { return "" })
 }
 
-func pairKey(s, t types.Type) string { return typeKey(s) + "→" + typeKey(t) }
+func pairKey(s, t types.Type) string { return typeKey(types.Unalias(s)) + "→" + typeKey(types.Unalias(t)) }
 
 func (o *Oracle) fail(path, format string, a ...interface{}) {
 	o.Leaves = append(o.Leaves, Leaf{Path: path, Cond: engine.False, Note: fmt.Sprintf(format, a...)})
@@ -410,6 +426,20 @@ func (o *Oracle) matchStruct(src engine.Struct, S types.Type, ss *types.Struct, 
 		}
 		if fs != nil && fs.Ignore {
 			o.leaf(fpath, o.IsZero(got[i], tf.Type()), "ignored field is not the zero value")
+			continue
+		}
+		if fs != nil && fs.Via != "" {
+			call := o.viaCall(fs.Via, src)
+			if call == nil || call.Failed {
+				o.fail(fpath, "getter %s was not called on the source", fs.Via)
+				continue
+			}
+			call.Used = true
+			if fs.Fn != "" {
+				o.matchCall(fs.Fn, []engine.Value{call.Result}, got[i], tf.Type(), fpath)
+			} else {
+				o.Match(call.Result, call.ResultType, got[i], tf.Type(), fpath)
+			}
 			continue
 		}
 		if fs != nil && fs.Fn != "" {
